@@ -144,7 +144,14 @@ void run_history(Run &R, int maxops) {
       CHECK(c, e == CO_ERR_NONE, "restore-accepted", "COParaRestore(group %d) failed with %d", i, (int)e);
       for (int k = first; k <= ng; k++) { int sel = (k == i && g[k].en) ? 1 : 0; CHECK(c, defcalls[k] == sel, "restore-exact-groups", "COParaRestore(group %d): default callback invoked %d time(s) for group %d, expected %d", i, defcalls[k], k, sel); }
     } else {              // read 1010h / 1011h sub-indices
-      uint32_t v; int sub = (int)c.t.below(ng + 2); arm(); cl.read(c.t.coin() ? 0x1010 : 0x1011, (uint8_t)sub, &v); done();
+      uint32_t v; int sub = (int)c.t.below(ng + 2); uint16_t idx = c.t.coin() ? 0x1010 : 0x1011;
+      std::vector<uint8_t> rb = s.snapshot(), nb = s.nvm; std::vector<std::vector<uint8_t>> pr; for (int i = 0; i <= ng; i++) pr.push_back(std::vector<uint8_t>(g[i].ram, g[i].ram + g[i].size));
+      arm(); cl.read(idx, (uint8_t)sub, &v); done();
+      VLOG(c, "read %04Xh:%d", idx, sub);
+      // only 'save' and 'load' requests, restarts and resets move parameter bytes: a read of a sub-index touches neither RAM nor NVM
+      CHECK(c, nb == s.nvm, "read-touches-nothing", "reading %04Xh:%d changed the NVM", idx, sub);
+      CHECK(c, rb == s.snapshot(), "read-touches-nothing", "reading %04Xh:%d changed RAM: %s", idx, sub, s.diff_snapshot(rb, s.snapshot()).c_str());
+      for (int i = 0; i <= ng; i++) CHECK(c, !memcmp(g[i].ram, pr[i].data(), g[i].size), "read-touches-nothing", "reading %04Xh:%d changed the parameters of group %d in RAM", idx, sub, i);
     }
   }
   R.total_calls = base;
